@@ -21,10 +21,12 @@ import zlib
 from . import c14_exec as X
 from . import tlaval
 
-QKINDS = ("has", "get", "par", "depth", "anc", "mb", "rc", "ro", "miss", "refs", "ref", "all")
+QKINDS = ("has", "get", "par", "depth", "anc", "mb", "rc", "ro", "miss", "cut", "miss_s", "fshallow", "depth_m", "refs", "ref", "all")
 # steps that leave primary data (objects that stay reachable, ref values) untouched
 TRANSPARENT_ACTS = {"PackRefs", "PackLoose", "RepackD", "BuildCg", "BuildMidx", "BuildBmp", "Remove",
                     "CopyMidx", "CopyCg", "CopyBmp", "Reindex"}
+# steps that write primary data through dulwich or git (the variant without acceleration data performs them too)
+PRIMARY_ACTS = {"Commit", "SetRef", "DeleteRef", "PackLoose", "RepackD", "Gc"}
 SITE = {
     "has": "dulwich/object_store.py:DiskObjectStore.contains_packed",
     "get": "dulwich/object_store.py:DiskObjectStore.get_raw",
@@ -36,6 +38,10 @@ SITE = {
     "rc": "dulwich/object_store.py:get_reachability_provider.get_reachable_commits",
     "ro": "dulwich/object_store.py:get_reachability_provider.get_reachable_objects",
     "miss": "dulwich/object_store.py:MissingObjectFinder",
+    "cut": "dulwich/object_store.py:_collect_ancestors(shallow)",
+    "miss_s": "dulwich/object_store.py:MissingObjectFinder(shallow)",
+    "fshallow": "dulwich/object_store.py:find_shallow",
+    "depth_m": "dulwich/object_store.py:get_depth(max_depth)",
     "refs": "dulwich/refs.py:DiskRefsContainer.as_dict",
     "ref": "dulwich/refs.py:DiskRefsContainer.__getitem__",
 }
@@ -139,7 +145,11 @@ def restrict(ans, keep_groups):
         return {int(x) for part in key.replace("|", ",").split(",") if part for x in [part.rstrip("ctb")]}
     out = {}
     for k, v in ans.items():
-        if isinstance(v, dict) and k in ("has", "get", "par", "depth", "anc", "mb", "rc", "ro", "miss"):
+        if isinstance(v, dict) and k in ("has", "get", "par", "depth", "anc", "mb", "rc", "ro", "miss", "cut", "miss_s", "depth_m"):
+            out[k] = {q: r for q, r in v.items() if gk(q) <= keep}
+        elif k == "fshallow" and isinstance(v, dict):
+            out[k] = {q: r for q, r in v.items() if int(q.split("|")[0]) in keep}
+        elif False:
             out[k] = {q: r for q, r in v.items() if gk(q) <= keep}
         elif k == "all":
             out[k] = [o for o in v if int(o[:-1]) in keep] if isinstance(v, list) else v
@@ -178,6 +188,12 @@ def step(root, scratch, src_model, lab, dst_model, src_ans, seed=0, who=None, op
     if opts is None:
         opts = (hv >> 1) & 7
     res = {"lab": lab, "who": who, "opts": opts, "shape": [], "viol": [], "ans": None, "ans_n": None}
+    pre = None
+    if act in PRIMARY_ACTS:
+        pre = os.path.join(scratch, "pre")
+        shutil.rmtree(pre, ignore_errors=True)
+        shutil.copytree(root, pre)
+        X.strip(pre)
     w = Repo(X.R(root))
     try:
         X.warm(w, side)
@@ -210,19 +226,32 @@ def step(root, scratch, src_model, lab, dst_model, src_ans, seed=0, who=None, op
     # the variant without acceleration data
     an = None
     nkey = json.dumps([dst_model[k] for k in ("n", "par", "loose", "packs", "tref")], sort_keys=True)
-    if not want_n and n_cache is not None:
+    if pre is None and not want_n and n_cache is not None:
         an = n_cache.get(nkey)
     if an is None:
         nroot = os.path.join(scratch, "n")
         shutil.rmtree(nroot, ignore_errors=True)
-        shutil.copytree(root, nroot)
+        if pre is not None:
+            # the step changes primary data: the variant "without" never had the acceleration data -- it is the
+            # source state stripped, then the same step performed the same way, then stripped again
+            os.rename(pre, nroot)
+            nside = X.Side(nroot)
+            nw = Repo(X.R(nroot))
+            try:
+                X.apply(nroot, nside, act, args, who, nw, opts, src_model["tref"])
+            except Exception as e:
+                res["shape"].append(f"variant without acceleration data: action raised {type(e).__name__}: {str(e)[:200]}")
+            finally:
+                nw.close()
+        else:
+            shutil.copytree(root, nroot)
         X.strip(nroot)
         nr = Repo(X.R(nroot))
         try:
             an = X.battery(nr, side, light=light)
         finally:
             nr.close()
-        if n_cache is not None:
+        if n_cache is not None and pre is None:
             n_cache[nkey] = an
     res["ans_n"] = an
     cls = stale_class(dst_model)
